@@ -512,9 +512,6 @@ class UnpackTuple(AsExtOp, _PartialOp):
     def __call__(self, tuple_: ComWire) -> Command:
         return super().__call__(tuple_)
 
-    def outer_signature(self) -> tys.FunctionType:
-        return MakeTuple(self.types).outer_signature().flip()
-
     def _set_in_types(self, types: tys.TypeRow) -> None:
         (t,) = types
         assert isinstance(t, tys.Sum), f"Expected unary Sum, got {t}"
